@@ -22,6 +22,9 @@ type c14Case struct {
 	S     string `json:"s"`
 	Tail  string `json:"tail"`
 	Raw   bool   `json:"raw"` // Raw: S is an arbitrary text handed to DecodeString (totality), not a string to encode
+	// Used: what the state object did before (0 = it is new): 1 = read a literal that is never closed, to the end of
+	// its text; 2 = read a closed literal; 3 = encoded and decoded another string; 4 = decoded a lone quote character
+	Used int `json:"used,omitempty"`
 }
 
 var c14States = []string{"generic", "expression", "csv"}
@@ -43,6 +46,16 @@ func checkC14(c c14Case) *evid.Fail {
 	var res *evid.Fail
 	if g := guard(func() {
 		st := newQuoteState(c.State)
+		switch c.Used {
+		case 1:
+			st.NextToken(rio.NewStringScanner(string(c.Quote)+"left open "+c.S), nil)
+		case 2:
+			st.NextToken(rio.NewStringScanner(st.EncodeString("closed", c.Quote)+" x"), nil)
+		case 3:
+			st.DecodeString(st.EncodeString("other"+string(c.Quote)+"text", c.Quote), c.Quote)
+		case 4:
+			st.DecodeString(string(c.Quote), c.Quote)
+		}
 		if c.Raw {
 			_ = st.DecodeString(c.S, c.Quote) // totality: must return
 			return
@@ -130,14 +143,19 @@ func TestC14_Exhaustive(t *testing.T) {
 		qq := q
 		enumStrings(alphabet, maxLen, true, func(parts []string) {
 			s := runesOf(parts)
+			used := 1 + (len(s)+len(parts))%4 // what a state object that is not new has done before, by turns
 			for _, st := range c14States {
 				c14Run(rec, c14Case{State: st, Quote: qq, S: s, Raw: true})
 				if st == "generic" {
 					c14Run(rec, c14Case{State: st, Quote: qq, S: s})
+					c14Run(rec, c14Case{State: st, Quote: qq, S: s, Used: used})
 					continue
 				}
-				for _, tail := range tails {
+				for ti, tail := range tails {
 					c14Run(rec, c14Case{State: st, Quote: qq, S: s, Tail: tail})
+					if ti == len(parts)%len(tails) {
+						c14Run(rec, c14Case{State: st, Quote: qq, S: s, Tail: tail, Used: used})
+					}
 				}
 			}
 		})
@@ -168,6 +186,9 @@ func TestC14_Rapid(t *testing.T) {
 			}
 		}
 		c := c14Case{State: rapid.SampledFrom(c14States).Draw(rt, "state"), Quote: q, S: sb.String(), Raw: rapid.IntRange(0, 3).Draw(rt, "raw") == 0}
+		if rapid.IntRange(0, 2).Draw(rt, "usedstate") == 0 {
+			c.Used = rapid.IntRange(1, 4).Draw(rt, "used")
+		}
 		if !c.Raw && c.State != "generic" {
 			switch rapid.IntRange(0, 3).Draw(rt, "tail") {
 			case 1:
@@ -220,6 +241,8 @@ type c14TokCase struct {
 	// Skip > 0: the caller's scanner holds that many characters of other text in front, which the caller has read
 	// itself before handing the scanner to TokenizeStream
 	Skip int `json:"skip,omitempty"`
+	// Opts: options switched on besides string decoding (skip / merge / unify bits as in the option checks)
+	Opts int `json:"opts,omitempty"`
 }
 
 func checkC14Tok(c c14TokCase) *evid.Fail {
@@ -239,6 +262,9 @@ func checkC14Tok(c c14TokCase) *evid.Fail {
 		}
 		enc := st.EncodeString(c.S, q)
 		text := c.Before + enc + c.After
+		if c.Opts != 0 {
+			setOptions(t, c.Opts|optDecodeStrings)
+		}
 		t.SetDecodeStrings(true)
 		var hits int
 		var all []string
@@ -331,8 +357,12 @@ func TestC14_RapidTokenStreams(t *testing.T) {
 			c.After = rapid.SampledFrom([]string{"", string(c.Seps[0]) + "tail", "\n", string(c.Seps[len(c.Seps)-1])}).Draw(rt, "after")
 		} else {
 			c.Quotes, c.Seps, c.Setup = []rune{'\''}, nil, nil
-			c.Before = rapid.SampledFrom([]string{"", "x = ", "f(", "1 + "}).Draw(rt, "before")
-			c.After = rapid.SampledFrom([]string{"", ")", " + 1", "\n"}).Draw(rt, "after")
+			c.Before = rapid.SampledFrom([]string{"", "x = ", "f(", "1 + ", "/* note */", "x = /* ' */", "1 +\t\n", "/**/ /* c */"}).Draw(rt, "before")
+			c.After = rapid.SampledFrom([]string{"", ")", " + 1", "\n", "/* c */"}).Draw(rt, "after")
+			if rapid.Bool().Draw(rt, "withopts") {
+				// what the expression parser itself switches on, and subsets / supersets of it
+				c.Opts = rapid.SampledFrom([]int{optSkipComments, optSkipComments | optSkipEof, optSkipWhitespaces, optSkipComments | optSkipWhitespaces | optSkipEof, optSkipUnknown | optSkipComments, optMergeWhitespaces | optSkipComments, optAll}).Draw(rt, "opts")
+			}
 		}
 		rec.Case(jsonStr(c), strings.ContainsRune(c.S, c.Quotes[0]) || len(c.Setup) > 2, func() interface{} { return c }, "tok:"+c.Tok)
 		if f := checkC14Tok(c); f != nil && rec.Fail(f, c) {
